@@ -8,7 +8,7 @@ use crate::{ExpressionPos, ExpressionTrait, Expressions, Keyword, ParserError};
 
 /// Parses an expression.
 pub fn expression_pos_p() -> impl Parser<StringView, Output = ExpressionPos, Error = ParserError> {
-    lazy(super::binary_expression::parser)
+    expression_depth_guard(lazy(super::binary_expression::parser))
 }
 
 /// `( expr [, expr]* )`
